@@ -841,6 +841,8 @@ pub fn c18(ctx: &Ctx, rep: &mut Report) {
         // enough records for >= 6 buffer fills (half warm-up, half measured), at least 40
         let n = if giant_lines { 8 } else { ((14 * cap) / rec_size + 2).max(40).min(if ctx.miri { 60 } else { 100_000 }) };
         let warm = n / 2;
+        let ends_mode = if giant_lines { 0 } else { (idx / 16) % 4 };
+        rep.map("line_ends", ["lf", "lf", "crlf", "mixed-inside-records"][ends_mode as usize]);
         let mut input = vec![];
         let mut sizes = vec![];
         for i in 0..n {
@@ -855,22 +857,42 @@ pub fn c18(ctx: &Ctx, rep: &mut Report) {
                 (rng.range(8, rec_size), 1 + rng.below(max_lines))
             };
             sizes.push(sz);
+            // line ends: LF (half of the cases), CRLF, or a mixture inside every record
+            let t = |line_no: usize| -> &'static [u8] {
+                match ends_mode {
+                    2 => b"\r\n",
+                    3 => {
+                        // which lines of a record end in CRLF varies from record to record (all 16 patterns
+                        // over the first four lines)
+                        if ((i * 5 + 3) >> (line_no % 4)) & 1 == 1 {
+                            b"\r\n"
+                        } else {
+                            b"\n"
+                        }
+                    }
+                    _ => b"\n",
+                }
+            };
             match fmt {
                 Fmt::Fasta => {
-                    input.extend_from_slice(format!(">r{} d\n", i % 10).as_bytes());
+                    input.extend_from_slice(format!(">r{} d", i % 10).as_bytes());
+                    input.extend_from_slice(t(0));
                     let per = (sz / nlines).max(1);
-                    for _ in 0..nlines {
+                    for ln in 0..nlines {
                         input.extend((0..per).map(|k| b"ACGT"[k % 4]));
-                        input.push(b'\n');
+                        input.extend_from_slice(t(ln + 1));
                     }
                 }
                 Fmt::Fastq => {
                     let s = (sz / 2).max(1);
-                    input.extend_from_slice(format!("@r{} d\n", i % 10).as_bytes());
+                    input.extend_from_slice(format!("@r{} d", i % 10).as_bytes());
+                    input.extend_from_slice(t(0));
                     input.extend((0..s).map(|k| b"ACGT"[k % 4]));
-                    input.extend_from_slice(b"\n+\n");
+                    input.extend_from_slice(t(1));
+                    input.push(b'+');
+                    input.extend_from_slice(t(2));
                     input.extend((0..s).map(|_| b'I'));
-                    input.push(b'\n');
+                    input.extend_from_slice(t(3));
                 }
             }
         }
